@@ -147,6 +147,7 @@ fn kind_name(k: &OpKind) -> String {
         OpKind::AddViaParam(_) => "add_via_param".into(),
         OpKind::Attack(_) => "attack".into(),
         OpKind::Valid(..) => "valid_on_unmodelled_cell".into(),
+        OpKind::IndexSelf => "index_by_own_length".into(),
         OpKind::ApplyViaParam(op, _) => format!("apply({op}=)"),
         OpKind::TransferFrom(op, ..) => format!("transfer({op}=*)"),
         OpKind::CompareContents(..) => "compare_contents".into(),
@@ -402,7 +403,7 @@ pub fn run_concurrent(sc: &Scenario) -> RunReport {
     let r = on_fresh_thread(sc.key_seed, move || {
         let mut rep = RunReport::default();
         os::install(os::SimOs::new());
-        if sc.mode == "shared_code" || sc.mode == "shared_fn" {
+        if sc.mode == "shared_code" || sc.mode == "shared_fn" || sc.mode == "indep" {
             return run_shared_code(&sc, rep);
         }
         let interp = match build_world() {
@@ -536,7 +537,7 @@ pub fn run_concurrent(sc: &Scenario) -> RunReport {
             }
             let entries: Vec<&HistEntry> = hist
                 .iter()
-                .filter(|h| h.op.cell == cell && !matches!(h.op.kind, OpKind::Pull | OpKind::SelfShow | OpKind::SelfSet(_) | OpKind::SelfTie | OpKind::MkFresh(_) | OpKind::Attack(_) | OpKind::Valid(..) | OpKind::PairShow(_) | OpKind::PairSet(..) | OpKind::PairTie | OpKind::CompareContents(..)))
+                .filter(|h| h.op.cell == cell && !matches!(h.op.kind, OpKind::Pull | OpKind::SelfShow | OpKind::SelfSet(_) | OpKind::SelfTie | OpKind::MkFresh(_) | OpKind::Attack(_) | OpKind::Valid(..) | OpKind::IndexSelf | OpKind::PairShow(_) | OpKind::PairSet(..) | OpKind::PairTie | OpKind::CompareContents(..)))
                 .collect();
             if entries.len() <= 1 {
                 continue;
@@ -610,7 +611,138 @@ fn linearizable(entries: &[&HistEntry]) -> bool {
 // ---------------------------------------------------------------------------------------------
 // C16, second family: threads share one parsed `Code` that owns no shared cell
 
+/// Threads that share NOTHING of their own: every thread executes its own program (texts separated
+/// by `\n@@\n` in `prog`), built from templates with run-unique names so that the types in them
+/// have never been seen by this process. What the threads can still meet in is process-wide state
+/// of the interpreter (statics, memo tables). Each thread must get what its program yields alone;
+/// the sequential references are computed AFTER the concurrent run (the programs are pure functions
+/// of their text), so the concurrent run is the first the process sees of these types.
+fn run_indep(sc: &Scenario, mut rep: RunReport) -> RunReport {
+    let interp = Interpreter::with_stdlib();
+    // a text marked `@warm ` is executed once, sequentially, before the threads start: whatever the
+    // process remembers about ITS types is warm, while the unmarked texts bring types it has never
+    // seen (this makes the scenario self-contained: alone in a fresh process it meets the same
+    // mixture of warm and cold state as in the middle of a worker's batch)
+    let mut texts: Vec<String> = Vec::new();
+    for t in sc.prog.split("\n@@\n") {
+        match t.strip_prefix("@warm ") {
+            Some(w) => {
+                let _ = guarded(|| Code::parse(&interp, w).map(|c| c.exec()));
+                texts.push(w.to_string());
+            }
+            None => texts.push(t.to_string()),
+        }
+    }
+    os::with(|o| o.stdout.clear());
+    let mut codes = Vec::new();
+    for t in &texts {
+        match guarded(|| Code::parse(&interp, t)) {
+            Ok(Ok(c)) => codes.push(c),
+            other => {
+                rep.harness_error = Some(format!("independent program rejected: `{t}`: {:?}", other.map(|r| r.map(|_| ()).map_err(|e| e.to_string()))));
+                return rep;
+            }
+        }
+    }
+    let codes = Arc::new(codes);
+    let shared = Arc::new(Shared {
+        codes: vec![],
+        hist: Mutex::new(vec![]),
+        stamp: AtomicU64::new(0),
+        lock_policy: sc.lock_policy,
+        lock_result: Mutex::new(None),
+        results: Mutex::new(Vec::new()),
+        inflight: Mutex::new(vec![]),
+    });
+    let sh = shared.clone();
+    let cs = codes.clone();
+    let exec = sched::run_once(sc.policy.clone(), sc.sched_seed, move || {
+        sync::sim_begin(sh.lock_policy);
+        let mut handles = Vec::new();
+        for t in 0..cs.len() {
+            let sh2 = sh.clone();
+            let cs2 = cs.clone();
+            handles.push(shuttle::thread::spawn(move || {
+                let r = match cs2[t].exec() {
+                    Ok(v) => cvar(&v),
+                    Err(e) => format!("Err({})", exec_err_name(&e)),
+                };
+                sh2.results.lock().unwrap().push((t, r));
+            }));
+        }
+        for h in handles {
+            h.join().unwrap();
+        }
+        *sh.lock_result.lock().unwrap() = Some(sync::sim_end());
+    });
+    sync::sim_abort();
+    rep.choices = exec.choices.clone();
+    rep.diverged = exec.diverged;
+    rep.context_switches = exec.context_switches;
+    if let Some((events, probes)) = shared.lock_result.lock().unwrap().take() {
+        rep.lock_events = events.len() as u64;
+        rep.schedule_digest = digest(&format!("{:?}", events.iter().map(|e| (e.actor, e.lock, e.kind as u8)).collect::<Vec<_>>()));
+        rep.probes = probes;
+    }
+    match exec.verdict {
+        Verdict::Completed => {}
+        Verdict::Deadlock(m) => {
+            rep.violation = Some(("deadlock".into(), format!("{m} (threads running independent programs that share no value)")));
+            return rep;
+        }
+        Verdict::Panic(m) => {
+            rep.violation = Some(("panic".into(), format!("{m} (threads running independent programs that share no value)")));
+            return rep;
+        }
+        Verdict::Harness(m) => {
+            rep.harness_error = Some(m);
+            return rep;
+        }
+    }
+    let results = shared.results.lock().unwrap_or_else(|p| p.into_inner()).clone();
+    rep.events = results.len() as u64 + rep.lock_events;
+    for (t, got) in &results {
+        let alone = match guarded(|| Code::parse(&interp, &texts[*t]).map(|c| c.exec())) {
+            Ok(Ok(Ok(v))) => cvar(&v),
+            Ok(Ok(Err(e))) => format!("Err({})", exec_err_name(&e)),
+            other => {
+                rep.harness_error = Some(format!("sequential reference of `{}` failed: {:?}", texts[*t], other.map(|_| ())));
+                return rep;
+            }
+        };
+        rep.log.push(format!("T{t} `{}` -> {got}", texts[*t]));
+        if &alone != got {
+            rep.violation = Some((
+                "seq-differs".into(),
+                format!("thread {t} running its own program `{}` (nothing shared with the other threads) computed {got}, alone it computes {alone}", texts[*t]),
+            ));
+            return rep;
+        }
+    }
+    rep.history_digest = digest(&format!("{results:?}"));
+    os::uninstall();
+    rep
+}
+
+/// Templates of the independent programs; `{N}` is replaced by a run- and thread-unique number.
+pub const INDEP_TEMPLATES: &[&str] = &[
+    "it := [struct{u{N} := 1}, 7, (x: int) -> int|float { return x }]~; it(); it(); it(); (c, d) := it(); c",
+    "f := (v: int|struct{w{N}: int}|[int|string]) -> int { return match v { i: int => 1, s: struct{w{N}: int} => 2, a: [int|string] => 3, } }; (f(1), f(struct{w{N} := 2}), f([1]))",
+    "r := ([1, \"a{N}\", 2.5, struct{q{N} := 3}]~ ? int|struct{q{N}: int}) $]; std.len(r)",
+    "x := mut int|struct{k{N}: int} 5; x = struct{k{N} := 1}; y := *x; if z: int = y { z } else { 0 - 1 }",
+    "it := [(1, struct{t{N} := 2.5}), (\"s\", struct{t{N} := 1})]~ ? (string|bool, struct{t{N}: int|float}); (a, b) := it(); (c, d) := it(); (a, c)",
+    "m := mod { v{N} := [1, \"x\"]; g{N} := (e: int|string) -> int|string { return e } }; (m.g{N}(m.v{N}[0]), m.g{N}(m.v{N}[1]))",
+    // the same text in every run: whatever the process remembers about these types is warm from
+    // the second run on, while the thread next to it brings types never seen before
+    "it := [(x: int) -> int|float { return x }, 7]~; it(); it(); (c, d) := it(); c",
+    "it := [([1, \"s\"], 2), \"z\", (x: int|string) -> [int|string] { return [x] }]~; it(); it(); it(); (c, d) := it(); c",
+    "r := ([1, \"a\", 2.5, [1, \"b\"]]~ ? int|[int|string]) $]; std.len(r)",
+];
+
 fn run_shared_code(sc: &Scenario, mut rep: RunReport) -> RunReport {
+    if sc.mode == "indep" {
+        return run_indep(sc, rep);
+    }
     let interp = Interpreter::with_stdlib();
     let code = match guarded(|| Code::parse(&interp, &sc.prog)) {
         Ok(Ok(c)) => Arc::new(c),
@@ -946,6 +1078,22 @@ pub fn gen_concurrent(seed: u64, boot_seed: u64, run: u64) -> Scenario {
         2 => Policy::Random { stick: 13 },
         k => Policy::Pct { depth: k - 1 + rng.below(2), est_steps: 10 + rng.below(60) },
     };
+    if shared_code && rng.chance(1, 4) {
+        // independent programs over types this process has never seen; two threads may share a number
+        let base = run * 8;
+        let progs: Vec<String> = (0..nthreads)
+            .map(|t| {
+                let n = if t > 0 && rng.chance(1, 4) { base } else { base + t as u64 };
+                let tpl = INDEP_TEMPLATES[rng.below(INDEP_TEMPLATES.len())];
+                if tpl.contains("{N}") {
+                    tpl.replace("{N}", &n.to_string())
+                } else {
+                    format!("@warm {tpl}")
+                }
+            })
+            .collect();
+        return Scenario { boot_seed, key_seed, mode: "indep".into(), threads: (0..nthreads).map(|_| vec![]).collect(), prog: progs.join("\n@@\n"), policy, sched_seed, lock_policy: 0 };
+    }
     if shared_code && rng.chance(1, 2) {
         let (prog, pool) = SHARED_FNS[rng.below(SHARED_FNS.len())];
         let calls = 1 + rng.below(3);
